@@ -34,7 +34,12 @@ Next ==
                           /\ LET x == lk[e.i]
                                  allowed == { Answer(g, x.addr) : g \in { h \in x.lo..x.hi : h \in DOMAIN gens } }
                                  got == IF e.ok THEN << TRUE, e.key >> ELSE << FALSE, <<>> >>
-                             IN IF got \in allowed THEN TRUE ELSE PrintT(<< "PV", {"C15"}, sc, l, "mixture" >>)
+                             IN IF got \in allowed THEN TRUE
+                                ELSE IF x.lo = x.hi
+                                     \* a lookup that met no reload: only the configuration in force may answer it (also C16: what a reload
+                                     \* removed is gone for every lookup begun after it)
+                                     THEN PrintT(<< "PV", {"C15", "C16"}, sc, l, "stale" >>)
+                                     ELSE PrintT(<< "PV", {"C15"}, sc, l, "mixture" >>)
                           /\ cnt' = [cnt EXCEPT !.lookups = @ + 1, !.overlapped = IF lk[e.i].hi > lk[e.i].lo THEN @ + 1 ELSE @]
                           /\ UNCHANGED << sc, gens, cur, building, lk >>
         [] e.e = "immut" -> /\ (IF e.changed = <<>> THEN TRUE ELSE PrintT(<< "PV", {"C15"}, sc, l, "published-written" >>))
